@@ -34,10 +34,12 @@ theorem validateB_sound {ρ : Ren} {P P' : Prog} {e e' : Nat}
     builtins := fun b b' hb => builtinOK_spec (AMap.all_of_get hbuiltins hb)
     types := fun t t' ht => typeOK_spec (AMap.all_of_get htypes ht)
     resources := fun r r' hr => resourceOK_spec (AMap.all_of_get hres hr)
-    compat := fun f f' F hf hF t ht t' ht' c c' hc =>
-      compatFnOK_spec (AMap.all_of_get hcompat hf) hF ht ht' (mem_tagPairs hc)
-    fparam := fun f f' hf c c' hc => fparamOK_spec (AMap.all_of_get hfparam hf) (mem_tagPairs hc)
-    bparam := fun b b' hb c c' hc => bparamOK_spec (AMap.all_of_get hbparam hb) (mem_tagPairs hc)
+    compat := fun f f' F hf hF t ht t' ht' c c' hc hp =>
+      compatFnOK_spec (AMap.all_of_get hcompat hf) hF ht ht' (mem_presentPairs hc hp)
+    fparam := fun f f' hf c c' hc hp =>
+      fparamOK_spec (AMap.all_of_get hfparam hf) (mem_presentPairs hc hp)
+    bparam := fun b b' hb c c' hc hp =>
+      bparamOK_spec (AMap.all_of_get hbparam hb) (mem_presentPairs hc hp)
     canon := fun a a' b b' ha hb => canonOK_spec hcanon ha hb }
 
 /-- **Validator soundness.** If `checkRenaming` returns a map, `P'` is a consistent renaming of the
